@@ -700,6 +700,27 @@ def illtyped_states(chk):
             yield f"illtyped:{label}={json.dumps(r)[:24]}", "regular", gzip.compress(json.dumps(json_set(base, p, r)).encode(), mtime=0)
         if not isinstance(p[-1], int):
             yield f"illtyped:{label}:removed", "regular", gzip.compress(json.dumps(json_set(base, p, None, delete=True)).encode(), mtime=0)
+    # documents nested deeper than any parser's recursion limit, and very long scalars -- as the
+    # whole document, inside model fields and inside an unknown key
+    def deep(n, kind):
+        return ("[" * n + "]" * n) if kind == "array" else ('{"a":' * n + "1" + "}" * n)
+
+    for n in ((2000, 20000) if quick else (2000, 20000, 100000)):
+        for kind in ("array", "object"):
+            yield f"deep:{kind}:{n}:document", "regular", gzip.compress(deep(n, kind).encode(), mtime=0)
+            for p in [("version",), ("state", "mixer", "volume"), ("state", "tracklist", "tl_tracks"),
+                      ("state", "tracklist", "tl_tracks", 0, "track", "artists"), ("state", "history")]:
+                doc = json.dumps(json_set(base, p, "@@DEEP@@")).replace('"@@DEEP@@"', deep(n, kind))
+                yield f"deep:{kind}:{n}:" + "/".join(map(str, p)), "regular", gzip.compress(doc.encode(), mtime=0)
+            doc = json.dumps({**base, "unknown_key": "@@DEEP@@"}).replace('"@@DEEP@@"', deep(n, kind))
+            yield f"deep:{kind}:{n}:unknown-key", "regular", gzip.compress(doc.encode(), mtime=0)
+    for label, token in (("string-1e6", '"' + "x" * 10 ** 6 + '"'), ("int-1e5-digits", "9" * 10 ** 5),
+                         ("int-5000-digits", "1" + "0" * 5000), ("float-1e400", "1e400"), ("float-long", "0." + "3" * 10 ** 5),
+                         ("neg-int-1e5-digits", "-" + "9" * 10 ** 5), ("string-escapes", '"' + "\\u00e9" * 10 ** 5 + '"')):
+        for p in [("version",), ("state", "mixer", "volume"), ("state", "playback", "time_position"),
+                  ("state", "tracklist", "tl_tracks", 0, "track", "name"), ("state", "tracklist", "next_tlid")]:
+            doc = json.dumps(json_set(base, p, "@@LONG@@")).replace('"@@LONG@@"', token)
+            yield f"long:{label}:" + "/".join(map(str, p)), "regular", gzip.compress(doc.encode(), mtime=0)
     for p in [q for q in json_paths(base) if isinstance(_get(base, q), dict)]:
         d = dict(_get(base, p))
         d["unknown_key"] = 1
